@@ -41,18 +41,52 @@ class Runner:
     def cfg_tokens(self, e):
         tc = self.w.spec['trial']
         n = len(e)
+        stub_sel = tc['sel'] is True              # 'all' = the real pass-through selection: no event is rejected
         pre = pf.cols_tok([('pre', e['ra'].astype(np.float64) * 2.0)]) if tc['pre'] else '-'
-        sel = ('i:' + sf.il(range(0, n, 2))) if tc['sel'] else 'N'
-        n_ev = len(range(0, n, 2)) if tc['sel'] else n
+        sel = ('i:' + sf.il(range(0, n, 2))) if stub_sel else 'N'
+        n_ev = len(range(0, n, 2)) if stub_sel else n
         if tc['index'] is not None:
-            key = np.array(e[tc['index']], copy=True)
-            if tc['sel']:
-                key = key[::2]
-            index = '%d:%s' % (IDX[tc['index']], sf.il(np.argsort(key)))
+            # the permutation is recovered from the sorted events afterwards (any valid sorting permutation is fine)
+            names = list(e.field_name_list)
+            step = 2 if stub_sel else 1
+            self._pending = (names, [tuple(e[f][i].tobytes() for f in names) for i in range(0, n, step)],
+                             np.array(e[tc['index']], copy=True)[::step])
+            index = '%d:%%PERM%%' % IDX[tc['index']]
         else:
+            self._pending = None
             index = 'N'
         stat = pf.cols_tok([('stat', np.arange(n_ev, dtype=np.float64) + 0.5)]) if tc['stat'] else '-'
         return '%s %s %s %s' % (pre, sel, index, stat)
+
+    def fix_perm(self, lines):
+        """replace %PERM% by the permutation the implementation applied (rows matched by content; identical rows are
+        interchangeable); falls back to np.argsort of the key if the sorted events are not a permutation of the rows"""
+        if not any('%PERM%' in ln for ln in lines):
+            return lines
+        names, before, key = self._pending
+        ev = self.w.tdm.events
+        perm = None
+        if ev is not None and len(ev) == len(before) and all(f in ev for f in names):
+            pool = {}
+            for i, r in enumerate(before):
+                pool.setdefault(r, []).append(i)
+            perm = []
+            for j in range(len(ev)):
+                r = tuple(ev[f][j].tobytes() for f in names)
+                if not pool.get(r):
+                    perm = None
+                    break
+                perm.append(pool[r].pop(0))
+        if perm is None:
+            perm = [int(i) for i in np.argsort(key)]
+        return [ln.replace('%PERM%', sf.il(perm)) for ln in lines]
+
+    def eval_line(self):
+        tc = self.w.spec['trial']
+        ev = self.w.tdm.events
+        if tc.get('gfp') and ev is not None and 'gfp' in ev:
+            return 'evaluate ' + pf.cols_tok([('gfp', ev['gfp'])])
+        return 'evaluate -'
 
     def apply(self, op):
         """returns ('ok'|'err', lines for the model, new handle or None)"""
@@ -64,7 +98,7 @@ class Runner:
                 w.set_bkg_method(w.fixed[op['scr']])
                 (_, evl) = w.ana.generate_background_events(rss)
                 new = evl[0]
-                lines.append('genFixed ' + pf.cols_tok((f, new[f]) for f in pf.DOCUMENTED[op['scr']]))
+                lines.append('genFixed %s %s' % (op['scr'], pf.cols_tok((f, new[f]) for f in pf.DOCUMENTED[op['scr']])))
             elif k == 'genMC':
                 mcv = w.spec['mc_variant']
                 w.set_bkg_method(w.mc_method)
@@ -76,7 +110,7 @@ class Runner:
                 draw = [pos[u] for u in sf.ivals(new['uid'])]
                 presel = ('i:' + sf.il(range(0, len(w.mc), 2))) if mcv['presel'] else 'N'
                 sets = pf.cols_tok((f, new[f]) for f in pf.DOCUMENTED[mcv['scr']]) if mcv['scr'] else '-'
-                lines.append('genMC %s %s %s %s %s' % (idxs(keep), presel, sf.il(draw), sets, idxs(w.exp_field_names())))
+                lines.append('genMC %s %s %s %s %s %s' % (idxs(keep), presel, sf.il(draw), mcv['scr'] or 'N', sets, idxs(w.exp_field_names())))
                 self.cache_built = True
             elif k == 'genComp':
                 mcv = w.spec['mc_variant']
@@ -95,18 +129,33 @@ class Runner:
                 pos = {u: i for i, u in enumerate(cache_uid)}
                 draw = [pos[u] for u in sf.ivals(new['uid'])]
                 presel = ('i:' + sf.il(range(0, len(w.mc), 2))) if mcv['presel'] else 'N'
-                lines.append('genComp %s %s %s %s %s %s' % (idxs(keep), sets, rates, presel, sf.il(draw), idxs(w.exp_field_names())))
+                lines.append('genComp %s %s %s %s %s %s %s' % (idxs(keep), mcv['scr'] or 'N', sets, rates, presel, sf.il(draw), idxs(w.exp_field_names())))
+            elif k in ('genSigReal', 'genSigRealRanges'):
+                # the real MCMultiDatasetSignalGenerator (get_selection on data.mc, post-sampling processing, set_selection)
+                gen = w.real_signal_generator(valid_ranges=(k == 'genSigRealRanges'))
+                (_, d) = gen.generate_signal_events(rss, op['k'], poisson=False)
+                new = d.get(0)
+                if k == 'genSigRealRanges':
+                    lines = None            # (re-drawn events: oracle only)
+                elif new is None:
+                    lines.append('evaluate -')
+                else:
+                    pos = {u: i for i, u in enumerate(sf.ivals(w.mc['uid']))}
+                    ev_ = [pos[u] for u in sf.ivals(new['uid'])]
+                    post = pf.cols_tok((f, new[f]) for f in ('ra', 'dec', 'sin_dec') if f in new)
+                    empty = pf.cols_tok((f, np.zeros(len(new), dtype=w.mc[f].dtype)) for f in w.mc.field_name_list)
+                    lines.append('genSigMC %s %s %s %s' % (sf.il(ev_), post, empty, sf.il(range(len(new)))))
             elif k == 'genSig':
                 (_, _, evl) = w.ana.generate_signal_events(rss, mean_n_sig=op['k'], sig_kwargs={}, n_events_list=[0], events_list=[None])
                 new = evl[0]
                 if new is None:
-                    lines.append('evaluate')
+                    lines.append('evaluate -')
                 else:
                     lines.append('genSig ' + pf.cols_tok((n, new[n]) for n in new.field_name_list))
             elif k == 'sigMerge':
                 b = self.hs[op['b']]
                 if op['k'] == 0:
-                    lines.append('evaluate')
+                    lines.append('evaluate -')
                 else:
                     sig = w.make_signal(w.RSS(seed=op.get('seed', 1)), op['k'])
                     w.sig_uid += op['k']          # the analysis draws the same events again below
@@ -120,26 +169,34 @@ class Runner:
                 merged = b.copy()
                 merged.append(s)
                 lines.append('initTrial @%d %s' % (op['b'], self.cfg_tokens(merged)))
-                lines.append('evaluate')
+                lines.append('evaluate -')
                 w.ana.do_trial_with_given_bkg_and_sig_pseudo_data(
                     seed=1, mean_n_sig=0., n_sig=len(s), n_bkg_events_list=[len(b)], n_sig_events_list=[len(s)],
                     bkg_events_list=[b], sig_events_list=[s], minimizer_rss=rss)
+                lines[-1] = self.eval_line()
+                lines = self.fix_perm(lines)
             elif k == 'initTrial':
                 e = self.hs[op['e']]
                 lines.append('initTrial @%d %s' % (op['e'], self.cfg_tokens(e)))
                 w.ana.initialize_trial([e])
+                lines = self.fix_perm(lines)
             elif k == 'doTrialGiven':
                 e = self.hs[op['e']]
                 lines.append('initTrial @%d %s' % (op['e'], self.cfg_tokens(e)))
-                lines.append('evaluate')
+                lines.append('evaluate -')
                 w.ana.do_trial_with_given_pseudo_data(seed=1, mean_n_sig=0., n_sig=0, n_events_list=[len(e)], events_list=[e], minimizer_rss=rss)
+                lines[-1] = self.eval_line()
+                lines = self.fix_perm(lines)
             elif k == 'evaluate':
-                lines.append('evaluate')
                 if w.tdm.events is not None:
                     w.ana._llhratio.maximize(rss)
+                lines.append(self.eval_line())
             elif k == 'unblind':
                 lines.append('unblind ' + self.cfg_tokens(w.data.exp))
+                lines.append('evaluate -')
                 w.ana.unblind(rss)
+                lines[-1] = self.eval_line()
+                lines = self.fix_perm(lines)
             elif k == 'doTrial':        # oracle only (the intermediate containers are not observable)
                 w.set_bkg_method(w.comp_method if op.get('mc') == 'comp' else w.mc_method if op.get('mc') else w.fixed[op['scr']])
                 w.ana.do_trial(rss, mean_n_sig=op['k'])
@@ -171,7 +228,9 @@ class Runner:
 def gen_history(rng, length, with_dotrial=False):
     ops, nh = [], 0
     while len(ops) < length:
-        ks = ['genFixed', 'genFixed', 'genMC', 'genMC', 'genComp', 'genComp', 'genSig', 'unblind', 'evaluate']
+        ks = ['genFixed', 'genFixed', 'genMC', 'genMC', 'genComp', 'genComp', 'genSig', 'genSigReal', 'genSigReal', 'unblind', 'evaluate']
+        if with_dotrial:
+            ks += ['genSigRealRanges']
         if nh:
             ks += ['sigMerge', 'sigMerge', 'initTrial', 'doTrialGiven', 'trialBkgSig', 'trialBkgSig']
         if with_dotrial:
@@ -185,6 +244,9 @@ def gen_history(rng, length, with_dotrial=False):
             nh += 1
         elif k == 'genSig':
             op['k'] = rng.choice([1, 2, 3])
+            nh += 1
+        elif k in ('genSigReal', 'genSigRealRanges'):
+            op['k'] = rng.choice([1, 1, 2, 4, 7])
             nh += 1
         elif k == 'sigMerge':
             op['b'] = rng.randrange(nh)
@@ -436,7 +498,7 @@ def corr_eval(lines, plan, answers):
                 return 'step %d: driver does not understand %r' % (k, ln)
             head = parse_head(last.split(' | ')[0])
             errs += head['errs']
-            if ln.startswith(('genFixed', 'genMC', 'genComp', 'genSig ')):
+            if ln.startswith(('genFixed', 'genMC', 'genComp', 'genSig ', 'genSigMC')):
                 new_id = head['h']
         mres = 'ok' if errs == 0 else 'err'
         if (res == 'ok') != (mres == 'ok'):
@@ -533,14 +595,14 @@ def shrink(case, mode):
     ops = list(case['ops'][:r[2] + 1])
     i = len(ops) - 2
     while i >= 0:
-        if ops[i]['op'] not in ('genFixed', 'genMC', 'genComp', 'genSig'):       # removing those shifts the handle numbers
+        if ops[i]['op'] not in ('genFixed', 'genMC', 'genComp', 'genSig', 'genSigReal', 'genSigRealRanges'):       # removing those shifts the handle numbers
             cand = ops[:i] + ops[i + 1:]
             rr = frame_check({'spec': case['spec'], 'ops': cand})
             if rr is not None and rr[0] == mode:
                 ops = cand
         i -= 1
     # unreferenced generators at the end of the prefix
-    while len(ops) > 1 and ops[0]['op'] in ('genFixed', 'genMC', 'genComp', 'genSig') and not any(
+    while len(ops) > 1 and ops[0]['op'] in ('genFixed', 'genMC', 'genComp', 'genSig', 'genSigReal', 'genSigRealRanges') and not any(
             o.get('b') is not None or o.get('e') is not None or o.get('s') is not None for o in ops[1:]):
         cand = ops[1:]
         rr = frame_check({'spec': case['spec'], 'ops': cand})
